@@ -132,7 +132,7 @@ def step (j : Json) : Json :=
       | .crash x => Json.mkObj [("crash", Json.str x)]
     match gen F07 e I (getStr j "url") with
     | .ok d => Json.mkObj [("ok", docJson d), ("closed", d.closed), ("importsCover", d.importsCover),
-        ("opsOnce", d.opsExactlyOnce I), ("wf", I.wf), ("wfOps", I.wfOps), ("tiers", tiers),
+        ("opsOnce", d.opsExactlyOnce I), ("wellDefined", d.wellDefined), ("wf", I.wf), ("wfOps", I.wfOps), ("tiers", tiers),
         ("wfBadCls", natsJson ((List.range I.classes.length).filter (fun i => !I.wfCls i))),
         ("wfBadMeth", strsJson (((allMethods I).filter (fun m => !I.wfMeth m)).map (·.name)))]
     | .fault => Json.mkObj [("fault", Json.str "fault")]
